@@ -368,6 +368,11 @@ impl LspClient {
         self.notify("textDocument/didOpen", json!({"textDocument": {"uri": uri, "languageId": "asm", "version": 0, "text": text}}))
     }
 
+    pub fn did_change(&mut self, path: &str, text: &str) -> Result<(), ClientErr> {
+        let uri = lsp_types::Url::from_file_path(path).unwrap().to_string();
+        self.notify("textDocument/didChange", json!({"textDocument": {"uri": uri, "version": 1}, "contentChanges": [{"text": text}]}))
+    }
+
     /// close the client's end of the server's stdin
     pub fn close_pipe(&mut self) {
         hist("lsp", "client_closes_pipe", Value::Null);
